@@ -181,7 +181,59 @@ func c15Run(cfg Cfg, wrap int, src string, tap *rollTap) (int64, string, string,
 	return v, "", before, after
 }
 
+// c15EdgeSides: face counts at the very top of the integer range. Such a term is either rejected
+// in every mode, or it obeys the bracket like any other (in particular a roll is never 0).
+func c15EdgeSides(w *fw.W, idx int, r *fw.Rand) {
+	sides := r.Pick([]string{"9223372036854775807", "9223372036854775806", "(9223372036854775806+1)", "4611686018427387904", "9223372036854775805", "99999999999999999999", "(4611686018427387904*2-1)"})
+	// one die counts (several dice only with keep-one): sums of such dice overflow the integer
+	// range, which is ordinary integer arithmetic and not the bracket's business
+	src := r.Pick([]string{"d", "1d"}) + sides
+	if r.Bool() {
+		src = r.Pick([]string{"2d", "3d"}) + sides + r.Pick([]string{"kh1", "kl1", "k1", "q1"})
+	}
+	seed := r.U64() | 1
+	desc := fmt.Sprintf("edge-sides seed=%d src=%q", seed, src)
+	w.Begin(idx, desc)
+	base := Cfg{CoC: true, Fate: true, Seed: seed}
+	cmin, cmax := base, base
+	cmin.Min = true
+	cmax.Max = true
+	mn, e1, _, _ := c15Run(cmin, 0, src, nil)
+	mx, e2, _, _ := c15Run(cmax, 0, src, nil)
+	w.Eval(2)
+	w.Count("edge_side_terms", 1)
+	for k := 0; k < 12; k++ {
+		c := base
+		c.Seed = r.U64() | 1
+		v, e, _, _ := c15Run(c, 0, src, nil)
+		w.Eval(1)
+		rejected := 0
+		for _, x := range []string{e1, e2, e} {
+			if x != "" {
+				rejected++
+			}
+		}
+		if rejected == 3 {
+			w.Count("edge_side_terms_rejected", 1)
+			return
+		}
+		if rejected != 0 {
+			w.Violate(idx, "mismatch", "bracket|edge-sides|rejected-in-some-modes", desc, fmt.Sprintf("min-mode error %q, max-mode error %q, random error %q", e1, e2, e), nil)
+			return
+		}
+		if v < mn || v > mx || v < 1 {
+			w.Violate(idx, "mismatch", "bracket|outside|edge-sides", desc, fmt.Sprintf("random result %d (seed %d) outside [min-mode %d, max-mode %d]", v, c.Seed, mn, mx), nil)
+			return
+		}
+	}
+	w.Note(fw.Hash64(desc))
+}
+
 func c15Case(w *fw.W, idx int, r *fw.Rand) {
+	if r.P(1, 40) {
+		c15EdgeSides(w, idx, r)
+		return
+	}
 	K := 24
 	if w.Tier == "thorough" {
 		K = 256
